@@ -12,4 +12,12 @@ GenInit == Init /\ h = <<>>
 GenNext == Next /\ h' = Append(h, Inp(out'))
 GenSpec == GenInit /\ [][GenNext]_gvars
 Emit == PrintT(<<"SCHED", ToJson([h |-> h'])>>)
+(* only the histories of full length that store something, change a version, and end in an operation
+   addressed by name (set-up, change, observe: e.g. update, version bump, reset) *)
+ByName == {"Remove", "Reset", "Trace"}
+EmitObserved ==
+    IF /\ Len(h') = MaxOps /\ out'.ev \in ByName
+       /\ \E i \in DOMAIN h : h[i].ev = "Update"
+       /\ \E i \in DOMAIN h : h[i].ev = "Bump"
+    THEN PrintT(<<"SCHED", ToJson([h |-> h'])>>) ELSE TRUE
 =============================================================================
